@@ -28,6 +28,15 @@ TInit == /\ Tr[1].ev = "setup" /\ TLCSet(1, 0)
          /\ \E w \in {"ctx", "dialctx"} : InitWith(CfgOf(Tr[1], w))
          /\ l = 2
 
+\* the deadline of the context NetDial is given: the earlier of the caller's own deadline and
+\* start + Dialer.Timeout (the harness' "shorter" timeout ends before, its "longer" one after the deadline)
+DialDeadline ==
+    CASE cfg.timeout = "shorter" -> "timeout"
+      [] cfg.timeout = "longer" /\ cfg.ctxKind = "deadline" -> "ctx"
+      [] cfg.timeout = "longer" -> "timeout"
+      [] cfg.ctxKind = "deadline" -> "ctx"
+      [] OTHER -> "none"
+
 \* a new trace begins: reset everything (TraceReset)
 TReset == /\ Is("setup") /\ l > 1
           /\ \E w \in {"ctx", "dialctx"} :
@@ -39,7 +48,8 @@ TReset == /\ Is("setup") /\ l > 1
           /\ Step
 
 Visible ==
-    \/ Is("netdial") /\ Step /\ CASE Ev.res = "ok" -> MDialOk [] Ev.res = "fail" -> MDialFail [] OTHER -> MDialAbort
+    \/ Is("netdial") /\ Step /\ Ev.dl = DialDeadline
+                      /\ CASE Ev.res = "ok" -> MDialOk [] Ev.res = "fail" -> MDialFail [] OTHER -> MDialAbort
     \/ Is("io") /\ Step /\ CASE Ev.res = "ok" -> MIoOk /\ ioIdx = Ev.i
                               [] Ev.res = "timeout" -> MIoTimeout /\ ioIdx = Ev.i
                               [] OTHER -> MIoErr /\ ioIdx = Ev.i
